@@ -1,9 +1,334 @@
 /-
   C19 — compressed responses decode to the identity body; the compression cache is never stale.
-  (property theorems: work in progress)
+  Property theorems only (helper lemmas and the cache invariant live in LtVerif/Proofs/Deflate.lean).
+
+  Claimed PARTIAL: zlib is external.  The coded form is a parameter `compress`; that it decodes
+  to its input is a hypothesis of `c19_served_decodes_partial` and is validated end-to-end with an
+  independent decoder, not proved.
 -/
-import LtVerif.Model.Deflate
+import LtVerif.Proofs.Deflate
 namespace LtVerif.C19
 open LtVerif B LtVerif.Deflate
+
+/-! ## negotiation: mod_deflate_choose_encoding() -/
+
+/-- The chosen coding is allowed by the configuration and listed by the client in an element
+    whose weight is not zero (never one the client marked `q=0`). -/
+theorem c19_encoding_listed_allowed (allowed : List CSet) (hdr : Bytes) (c : Coding)
+    (h : chooseEncoding allowed hdr = some c) :
+    (∃ x ∈ allowed, x.mem c = true) ∧
+    (∃ e ∈ entries hdr, e.token = c.label ∧ e.q0 = false) := by
+  obtain ⟨pre, x, post, rfl, hx, hacc, _⟩ := chooseSet_spec h
+  obtain ⟨e, he, hq, ht⟩ := acceptSet_mem hacc
+  exact ⟨⟨x, by simp, hx⟩, e, he, ht, hq⟩
+
+example : chooseEncoding (encodingsToFlags (some [Coding.gzip.label, Coding.deflate.label]))
+    (ofString "gzip;q=0, deflate;q=0.5") = some .deflate := by decide
+example : chooseEncoding (encodingsToFlags none) (ofString "br, gzip ;q=0") = none := by decide
+
+/-- Server preference: the coding comes from the FIRST deflate.allowed-encodings entry that
+    contains a coding the client accepts; no earlier entry contains an acceptable coding. -/
+theorem c19_encoding_order (allowed : List CSet) (hdr : Bytes) (c : Coding)
+    (h : chooseEncoding allowed hdr = some c) :
+    ∃ pre x post, allowed = pre ++ x :: post ∧ x.mem c = true ∧
+      ∀ y ∈ pre, ∀ d, y.mem d = true → ¬ ∃ e ∈ entries hdr, e.q0 = false ∧ e.token = d.label := by
+  obtain ⟨pre, x, post, hsplit, hx, _, hpre⟩ := chooseSet_spec h
+  refine ⟨pre, x, post, hsplit, hx, ?_⟩
+  intro y hy d hyd hex
+  have hacc := (acceptSet_mem_iff hdr d).mpr hex
+  have := hpre y hy d
+  simp [hyd, hacc] at this
+
+example : chooseEncoding (encodingsToFlags (some [Coding.deflate.label, Coding.gzip.label]))
+    (ofString "gzip, deflate") = some .deflate := by decide
+
+/-- what a configured string must contain for a coding to be allowed -/
+def Coding.base : Coding → Bytes
+  | .gzip => Coding.gzip.label
+  | .xgzip => Coding.gzip.label
+  | .deflate => Coding.deflate.label
+
+/-- Configuration level: with an explicit non-empty deflate.allowed-encodings list, the chosen
+    coding is named by one of the configured strings ("x-gzip" is allowed through "gzip"). -/
+theorem c19_encoding_config_allowed (l : List Bytes) (hl : l ≠ []) (hdr : Bytes) (c : Coding)
+    (h : chooseEncoding (encodingsToFlags (some l)) hdr = some c) :
+    ∃ v ∈ l, isInfix (Coding.base c) v = true := by
+  obtain ⟨⟨x, hx, hm⟩, _⟩ := c19_encoding_listed_allowed _ _ _ h
+  cases l with
+  | nil => exact absurd rfl hl
+  | cons a l =>
+    simp only [encodingsToFlags, List.mem_flatMap, List.mem_append] at hx
+    obtain ⟨v, hv, hx⟩ := hx
+    refine ⟨v, hv, ?_⟩
+    rcases hx with hx | hx
+    · split at hx
+      · rename_i hg
+        simp only [List.mem_singleton] at hx
+        subst hx
+        cases c <;> simp_all [CSet.mem, Coding.base]
+      · cases hx
+    · split at hx
+      · rename_i hd
+        simp only [List.mem_singleton] at hx
+        subst hx
+        cases c <;> simp_all [CSet.mem, Coding.base]
+      · cases hx
+
+example : chooseEncoding (encodingsToFlags (some [ofString "deflate"])) (ofString "gzip, deflate") = some .deflate := by
+  decide
+
+/-! ## gating and header adjustments: mod_deflate_handle_response_start() -/
+
+/-- A response is only ever coded when the module is enabled for its MIME type, its size is
+    inside (min-compress-size, max-compress-size], it is complete, not a HEAD / 1xx / 204 / 205 /
+    304, not already coded or chunked, and the client sent an Accept-Encoding from which the
+    coding was negotiated. -/
+theorem c19_gating (cfg : Cfg) (rq : Rq) (rs : Rs) (c : Coding) (h : selectCoding cfg rq rs = some c) :
+    rs.finished = true ∧ rq.method ≠ .head ∧ rs.hasTE = false ∧ rs.hasCE = false ∧
+    200 ≤ rs.status ∧ rs.status ≠ 204 ∧ rs.status ≠ 205 ∧ rs.status ≠ 304 ∧
+    cfg.mimetypes ≠ [] ∧ cfg.minSize < rs.len ∧ (cfg.maxSizeKB = 0 ∨ rs.len ≤ cfg.maxSizeKB * 1024) ∧
+    mimeOk cfg.mimetypes rs.contentType = true ∧
+    ∃ ae, rq.acceptEncoding = some ae ∧ chooseEncoding cfg.allowed ae = some c := by
+  unfold selectCoding at h
+  split at h
+  · cases h
+  rename_i h1
+  split at h
+  · cases h
+  rename_i h2
+  split at h
+  · cases h
+  rename_i h3
+  split at h
+  · cases h
+  rename_i h4
+  split at h
+  · cases h
+  rename_i h5
+  split at h
+  · cases h
+  rename_i ae hae
+  split at h
+  · cases h
+  rename_i c' hc'
+  split at h
+  case isFalse => cases h
+  rename_i hm
+  cases h
+  simp only [Bool.or_eq_true, Bool.not_eq_true', decide_eq_true_eq, not_or, Bool.not_eq_true] at h1 h2
+  simp only [Bool.and_eq_true, ne_eq, decide_eq_true_eq, not_and, Nat.not_lt] at h5
+  refine ⟨by simpa using h1.1.1.1, h1.1.1.2, h1.1.2, h1.2, by omega, h2.1.1.2, h2.1.2, h2.2, ?_, by omega, ?_, hm,
+    ae, hae, hc'⟩
+  · intro he; simp [he] at h3
+  · by_cases hz : cfg.maxSizeKB = 0
+    · exact Or.inl hz
+    · exact Or.inr (by have := h5 hz; omega)
+
+example : selectCoding { mimetypes := [ofString "text/"], minSize := 10 }
+    { acceptEncoding := some (ofString "gzip") }
+    { contentType := some (ofString "text/plain"), len := 11 } = some .gzip := by decide
+
+/-- Whenever the body is coded: Vary names Accept-Encoding, Content-Encoding is the negotiated
+    coding (listed by the client, allowed by the configuration), the identity Content-Length is
+    gone, the status is unchanged, and an ETag (if any) is rewritten to a tag distinct from the
+    identity one. -/
+theorem c19_headers (cfg : Cfg) (rq : Rq) (rs : Rs) (c : Coding) (k : Bool)
+    (h : (respStart cfg rq rs).verdict = .encode c k) :
+    (∃ v, (respStart cfg rq rs).vary = some v ∧ containsToken v aeName = true) ∧
+    (respStart cfg rq rs).contentEncoding = some c.label ∧
+    (respStart cfg rq rs).hasCL = false ∧
+    (respStart cfg rq rs).status = rs.status ∧
+    (∀ e, rs.etag = some e → e ≠ [] →
+      (respStart cfg rq rs).etag = some (suffixEtag e c.label) ∧ suffixEtag e c.label ≠ e) ∧
+    selectCoding cfg rq rs = some c := by
+  obtain ⟨hs, hi, _⟩ := respStart_verdict_encode h
+  rw [respStart_encode_eq hs hi]
+  refine ⟨⟨_, rfl, varyAdjust_hasToken _⟩, rfl, rfl, rfl, ?_, hs⟩
+  intro e he hne
+  constructor
+  · simp [encodeOut, he, hne]
+  · intro heq
+    have := suffixEtag_length e c.label hne
+    rw [heq] at this
+    omega
+
+example : (respStart { mimetypes := [ofString "text/"], minSize := 0 }
+    { acceptEncoding := some (ofString "deflate, gzip") }
+    { contentType := some (ofString "text/css"), etag := some (ofString "\"77\""), len := 5 }) =
+    ⟨.encode .gzip false, 200, some (ofString "\"77-gzip\""), some aeName, some (ofString "gzip"), false⟩ := by
+  decide
+
+/-- The coded tags of one identity tag are pairwise distinct (and distinct from it). -/
+theorem c19_etag_distinct (e : Bytes) (c d : Coding) (he : e ≠ [])
+    (h : suffixEtag e c.label = suffixEtag e d.label) : c = d := by
+  have h1 := suffixEtag_length e c.label he
+  have h2 := suffixEtag_length e d.label he
+  rw [h] at h1
+  exact label_length_inj (by omega)
+
+/-- Revalidation: repeating the request with If-None-Match set to the entity tag the coded
+    response carried yields 304 with that same tag and Vary: Accept-Encoding, no body coding
+    (2xx responses, GET / QUERY); for other methods 412. -/
+theorem c19_revalidation_304 (cfg : Cfg) (rq : Rq) (rs : Rs) (c : Coding) (k : Bool) (e : Bytes)
+    (h : (respStart cfg rq rs).verdict = .encode c k)
+    (he : rs.etag = some e) (hne : e ≠ []) (hst : rs.status < 300)
+    (inm : Option Bytes) (hinm : inm = (respStart cfg rq rs).etag) :
+    (rq.method ≠ .other →
+      respStart cfg { rq with ifNoneMatch := inm } rs =
+        ⟨.notModified, 304, inm, some (varyAdjust rs.vary), none, false⟩) ∧
+    (rq.method = .other →
+      respStart cfg { rq with ifNoneMatch := inm } rs =
+        ⟨.precondFailed, 412, rs.etag, some (varyAdjust rs.vary), none, false⟩) ∧
+    containsToken (varyAdjust rs.vary) aeName = true := by
+  obtain ⟨_, _, _, _, hetag, hsel⟩ := c19_headers cfg rq rs c k h
+  obtain ⟨hetag, _⟩ := hetag e he hne
+  rw [hetag] at hinm
+  subst hinm
+  have hsel' : selectCoding cfg { rq with ifNoneMatch := some (suffixEtag e c.label) } rs = some c := hsel
+  have hhit : inmHit { rq with ifNoneMatch := some (suffixEtag e c.label) } rs c = true := by
+    unfold inmHit
+    simp [he, hne, hst, inmMatches_suffix e c hne]
+  rw [respStart_inm_eq hsel' hhit]
+  refine ⟨?_, ?_, varyAdjust_hasToken _⟩
+  · intro hm
+    simp [hm, he]
+  · intro hm
+    simp [hm]
+
+example : (respStart { mimetypes := [ofString "text/"], minSize := 0 }
+    { acceptEncoding := some (ofString "gzip"), ifNoneMatch := some (ofString "\"77-gzip\"") }
+    { contentType := some (ofString "text/css"), etag := some (ofString "\"77\""), len := 5 }) =
+    ⟨.notModified, 304, some (ofString "\"77-gzip\""), some aeName, none, false⟩ := by
+  decide
+
+/-- A response that is not coded is not touched at all. -/
+theorem c19_identity_untouched (cfg : Cfg) (rq : Rq) (rs : Rs) (h : selectCoding cfg rq rs = none) :
+    respStart cfg rq rs = ⟨.pass, rs.status, rs.etag, rs.vary, none, rs.hasCL⟩ := by
+  unfold respStart
+  simp [h]
+
+example : selectCoding { mimetypes := [ofString "text/"], minSize := 0 }
+    { acceptEncoding := some (ofString "gzip;q=0") }
+    { contentType := some (ofString "text/css"), len := 5 } = none := by decide
+
+/-! ## the on-disk cache -/
+
+/-- explicit assumption of the cache theorems: the validator distinguishes the versions of a
+    source file — every version of `p` that ever carries validator `v` has content `contentOf p v` -/
+def ValidatorDistinguishes (contentOf : Nat → Nat → Bytes) (ops : List Op) : Prop :=
+  ∀ p v c, Op.modify p v c ∈ ops → c = contentOf p v
+
+/-- For ALL histories of source modifications, requests (any coding, any process id incl.
+    reuse), cache evictions and ALL fault schedules of the cache writer (open failure, short
+    writes, EINTR, write failure, rename failure, process death before / after any system call):
+    every body that is served — from the cache or freshly coded — is the complete coded form
+    of the CURRENT content of the requested file. -/
+theorem c19_cache_never_stale (compress : Coding → Bytes → Bytes) (contentOf : Nat → Nat → Bytes)
+    (ops : List Op) (hv : ValidatorDistinguishes contentOf ops)
+    (st : St) (p : Nat) (c : Coding) (pid : Pid) (plan : Plan) (body : Bytes) (hit : Bool)
+    (h : (st, Op.request p c pid plan, Obs.served body hit) ∈ run compress {} ops) :
+    ∃ v content, st.src p = some (v, content) ∧ body = compress c content :=
+  (run_ok compress contentOf ops {} (srcOk_init _) (cacheOk_init _ _) hv _ h).2.2
+
+/-- The same, reading "decodes to the identity body" — PARTIAL: correctness of the codec
+    (zlib) is the hypothesis `hz`, validated by the correspondence checks, not proved. -/
+theorem c19_served_decodes_partial (compress decode : Coding → Bytes → Bytes)
+    (hz : ∀ c x, decode c (compress c x) = x)
+    (contentOf : Nat → Nat → Bytes) (ops : List Op) (hv : ValidatorDistinguishes contentOf ops)
+    (st : St) (p : Nat) (c : Coding) (pid : Pid) (plan : Plan) (body : Bytes) (hit : Bool)
+    (h : (st, Op.request p c pid plan, Obs.served body hit) ∈ run compress {} ops) :
+    ∃ v content, st.src p = some (v, content) ∧ decode c body = content := by
+  obtain ⟨v, content, hs, rfl⟩ := c19_cache_never_stale compress contentOf ops hv st p c pid plan body hit h
+  exact ⟨v, content, hs, hz c content⟩
+
+/-- At every point of every such history, every published cache file is the complete coded
+    form of the version named by its validator, and every temporary file (whatever a dead or
+    failed writer left behind) is a prefix of the form it was meant to become. -/
+theorem c19_cache_files_complete (compress : Coding → Bytes → Bytes) (contentOf : Nat → Nat → Bytes)
+    (ops : List Op) (hv : ValidatorDistinguishes contentOf ops) :
+    (∀ t ∈ run compress {} ops, CacheOk compress contentOf t.1.fs) ∧
+    CacheOk compress contentOf (exec compress {} ops).fs :=
+  ⟨fun t ht => (run_ok compress contentOf ops {} (srcOk_init _) (cacheOk_init _ _) hv t ht).2.1,
+   (exec_ok compress contentOf ops {} (srcOk_init _) (cacheOk_init _ _) hv).2⟩
+
+/-- A cache hit reads exactly the published name of the CURRENT validator and coding — never a
+    temporary name and never another version's entry.  (Holds in every state.) -/
+theorem c19_tmp_never_served (compress : Coding → Bytes → Bytes) (st : St) (p : Nat) (c : Coding)
+    (pid : Pid) (plan : Plan) (body : Bytes)
+    (h : (doRequest compress st p c pid plan).2 = .served body true) :
+    ∃ v content, st.src p = some (v, content) ∧ fsGet st.fs (.final ⟨p, v, c⟩) = some body ∧
+      (doRequest compress st p c pid plan).1 = st := by
+  unfold doRequest at h ⊢
+  cases hs : st.src p with
+  | none => simp [hs] at h
+  | some vc =>
+    obtain ⟨v, content⟩ := vc
+    simp only [hs] at h ⊢
+    by_cases hca : plan.cacheable = true
+    case neg => simp [hca] at h
+    simp only [hca, Bool.not_true, Bool.false_eq_true, ↓reduceIte] at h ⊢
+    cases hget : fsGet st.fs (Name.final ⟨p, v, c⟩) with
+    | some b =>
+      simp only [hget] at h ⊢
+      split at h
+      · cases h
+      · rename_i hb
+        simp only [Obs.served.injEq, and_true] at h
+        subst h
+        exact ⟨v, content, rfl, hget, by simp [hb]⟩
+    | none =>
+      simp only [hget] at h
+      by_cases hop : plan.openOk = true
+      case neg => simp [hop] at h
+      simp only [hop, Bool.not_true, Bool.false_eq_true, ↓reduceIte] at h
+      split at h
+      · cases h
+      · cases h
+      · split at h <;> simp at h
+
+/-- non-vacuity of the cache theorems: a history with a writer killed mid-write, a reused
+    process id, a source modification and a cache hit, under a toy codec -/
+def demoCompress (c : Coding) (x : Bytes) : Bytes := c.label ++ x
+def demoOps : List Op :=
+  [ .modify 0 1 (ofString "version one"),
+    .request 0 .gzip 7 { writes := [.wr 2, .crash] },
+    .request 0 .gzip 7 { writes := [.wr 0, .eintr, .wr 3] },
+    .request 0 .gzip 9 {},
+    .modify 0 2 (ofString "version two"),
+    .request 0 .gzip 9 { rename := .crashBefore },
+    .request 0 .gzip 7 { rename := .fail },
+    .request 0 .gzip 7 {} ]
+example : (run demoCompress {} demoOps).map (·.2.2) =
+    [.quiet, .crashed, .served (ofString "gzipversion one") false, .served (ofString "gzipversion one") true,
+     .quiet, .crashed, .error, .served (ofString "gzipversion two") false] := by decide
+example : ValidatorDistinguishes (fun _ v => if v = 1 then ofString "version one" else ofString "version two")
+    demoOps := by
+  intro p v c h
+  simp [demoOps] at h
+  rcases h with ⟨_, rfl, rfl⟩ | ⟨_, rfl, rfl⟩ <;> simp
+
+/-- The validator assumption is necessary (and the model is faithful about it): two versions
+    sharing a validator make a cache hit serve the older one. -/
+example : (run demoCompress {} [ .modify 0 1 (ofString "old"), .request 0 .gzip 7 {},
+      .modify 0 1 (ofString "new"), .request 0 .gzip 7 {} ]).map (·.2.2) =
+    [.quiet, .served (ofString "gzipold") false, .quiet, .served (ofString "gzipold") true] := by decide
+
+/-! ## cache file names (byte level) -/
+
+/-- The name of a temporary cache file (published name "." pid) can never be the published
+    name of any coded response: published names end in the last letter of a coding label,
+    temporary names in a decimal digit. -/
+theorem c19_tmp_name_not_final (fn : Bytes) (pid : Nat) (dir path e : Bytes) (c : Coding) :
+    tmpFileName fn pid ≠ cacheFileName dir path (suffixEtag e c.label) := by
+  intro h
+  have h1 := tmpFileName_getLast fn pid
+  have h2 := cacheFileName_getLast dir path e c
+  rw [h] at h1
+  obtain ⟨d, hd, hdig⟩ := h1
+  rw [h2] at hd
+  cases c <;> simp [Coding.label] at hd <;> subst hd <;> simp [isDigit] at hdig
+
+example : tmpFileName (cacheFileName (ofString "/c") (ofString "/srv/a.txt") (ofString "\"12-gzip\"")) 4711
+    = ofString "/c/srv/a.txt-12-gzip.4711" := by decide
 
 end LtVerif.C19
